@@ -386,3 +386,11 @@ pub fn smallvec_drain_discard<A: smallvec::Array, R: std::ops::RangeBounds<usize
     }
     leak_empty_smallvec::<A>().drain(0..0)
 }
+
+/// Header harnesses: check the requested capacity, then end the path (what follows would decode
+/// elements with symbolic tags).
+pub fn vec_with_capacity_check_cut<T>(cap: usize) -> Vec<T> {
+    check_cap(cap);
+    kani::assume(false);
+    Vec::new()
+}
